@@ -3,6 +3,7 @@
 mod alias;
 mod rng;
 mod samp;
+mod ser;
 mod tree;
 mod wt;
 
@@ -57,9 +58,11 @@ fn main() {
             "tree" => tree_line(&toks),
             "alias" => alias_line(&toks),
             "samp" => samp::line(&toks),
+            "serde" => ser::line(&toks),
             "sweep" => samp::sweep(&toks),
             "many" => samp::many(&toks),
             "lat" => samp::lat(&toks),
+            "pure" => samp::pure(&toks),
             "zig" => zig_line(),
             "ping" => "pong".to_string(),
             other => format!("unknown:{}", other),
